@@ -317,6 +317,26 @@ def part_e(rep, hbin, tier, seed, cov):
         "shapes_of_accepted_keys": json.loads(m.group(6)) if m else {},
         "compared": "structure dump (origin, body, path(s), wildcard) or error class; Display text; reparse-equal flag; body validity from the bitcoin crate"}
     cov.setdefault("samples", []).extend(re.findall(r"KEYTEXTSAMPLE (.*)", p.stderr)[:4])
+    # keys built as VALUES on the BIP32 depth limit (depth + steps + wildcard = 253..256, xpub depth 0 / 5 / 250,
+    # every wildcard, single path and multipath): Display then FromStr must give back an equal value when the
+    # total is <= 255 (C10_key_print_parse: these values are wf_dkey); judged on the real code only
+    mv = re.search(r"KEYVALUES n=(\d+) within_limit=(\d+) within_limit_roundtrip_ok=(\d+) over_limit=(\d+) over_limit_rejected=(\d+)", p.stderr)
+    cov["key_text_layer"]["values_on_the_depth_limit"] = {
+        "constructed": int(mv.group(1)) if mv else 0, "total<=255": int(mv.group(2)) if mv else 0,
+        "total<=255_printed_then_parsed_equal": int(mv.group(3)) if mv else 0,
+        "total=256": int(mv.group(4)) if mv else 0, "total=256_rejected_by_parser": int(mv.group(5)) if mv else 0}
+    vfails = re.findall(r"^KEYVALUEFAIL (.*?) :: (.*?) :: (.*)$", p.stderr, flags=re.M)
+    if vfails or not mv or int(mv.group(2)) == 0:
+        if vfails:
+            desc, result, text = vfails[0]
+            rep.violation("keytext-value-rt",
+                          "a DescriptorPublicKey built as a value within the BIP32 depth limit (%s) prints as %r, which FromStr does not give back: %s (%d such value(s))"
+                          % (desc, text[:160] + ("..." if len(text) > 160 else ""), result, len(vfails)),
+                          {"property": PID, "part": "round-trip", "key": "keytext-value-rt", "input": text, "value": desc,
+                           "result": result, "all": [{"value": a, "result": b, "printed": c} for a, b, c in vfails[:20]],
+                           "seed": seed, "tier": tier}, True)
+        else:
+            rep.violation("keytext-values", "the keytext engine reported no constructed values", {"property": PID, "broken_tie": "verif-harness keytext (KEYVALUES)"}, False)
     if not m or int(m.group(1)) < 1500:
         rep.violation("keytext-volume", "keytext engine produced too few cases: %s" % (p.stderr[-300:],),
                       {"property": PID, "broken_tie": "verif-harness keytext"}, False)
